@@ -101,6 +101,11 @@ def classify_apply_exception(case, exc):
                 if ln.get("k") in ("jmp", "jne", "call") and \
                         follows_code.get(ln.get("t")) is False:
                     return "refused", "refused:branch-target-not-code"
+    if name == "AmbiguousIRError" and case.get("retargets") and \
+            where.startswith("retarget.py:"):
+        # loud refusal: the label the uses are redirected to ended up in
+        # front of data (its block was deleted in the same rewrite)
+        return "refused", "refused:retarget-control-flow-into-data"
     if name == "PaddingError" and len(vocab.NOP[case["isa"]]) > 1:
         # loud refusal: an alignment requirement that whole nops cannot
         # establish (the ISA's nop is longer than the gap)
